@@ -64,7 +64,7 @@ bool Tag::removeReference(const DataArray &reference) {
     if (!util::checkEntityInput(reference, false)) {
         return false;
     }
-    return backend()->removeReference(reference.name());
+    return backend()->removeReference(reference.id());
 }
 
 
